@@ -20,7 +20,7 @@ RULE = (
     "subclass (__bool__ False) and one falsy through __len__, an attribute plan (name in {k, name, uid, i, the dotted name 'node.id', 'code' (a normalising property on some vertex classes, a plain attribute on others), 'cycles' (user data named like a universe law, some vertices being universes)}; values "
     "from a 3-value domain so several listed vertices match; some vertices lack the attribute; matching vertices "
     "may lie outside the universe) and a sought value that is equal but not identical to the stored one (big int "
-    "rebuilt at run time, float vs int, rebuilt str) or absent, or an object whose == accepts every value (then the first listed vertex HAVING the attribute is the match), or None (stored None must match, a vertex lacking the attribute must not).  With a start vertex outside the universe, and with an empty universe, the search must do what its traversal does (raise ValueError / find nothing) - it may not hand back the start.  Cases run with neighbor caching on or off, a few worlds are scaled up (a chain of 260 / 300 attribute-less vertices in front of the start vertex, 70 / 340 / 1300 further links at the start vertex), universes are optionally padded with 40 / 1000 isolated members, and every case is evaluated again on the same objects after a membership swap (one member out, one non-member in).  Oracle: the first vertex of bft / dft_recursive / "
+    "rebuilt at run time, float vs int, rebuilt str) or absent, or an object whose == accepts every value (then the first listed vertex HAVING the attribute is the match), or None (stored None must match, a vertex lacking the attribute must not).  One sought value is a NaN that IS the stored object (identical, equal to nothing: no match).  With a start vertex outside the universe, and with an empty universe, the search must do what its traversal does (raise ValueError / find nothing) - it may not hand back the start.  Cases run with neighbor caching on or off, a few worlds are scaled up (a chain of 260 / 300 attribute-less vertices in front of the start vertex, 70 / 340 / 1300 further links at the start vertex), universes are optionally padded with 40 / 1000 isolated members, and every case is evaluated again on the same objects after a membership swap (one member out, one non-member in).  Oracle: the first vertex of bft / dft_recursive / "
     "dft_iterative (the library's own listing, FORWARD + defaults) with hasattr and ==, else None; the search "
     "must return that very object; cross-checked against the reference orders.  Non-trivial = >= 2 listed "
     "vertices match, or the expected match is falsy, or a matching vertex exists only outside the universe / "
